@@ -28,6 +28,11 @@ class Stuck(Exception):
     pass
 
 
+class Blocked(BaseException):
+    """a recv() that a real socket would never return from: the peer is silent and no timeout is set on the socket
+    (BaseException: no handler of the code under test may swallow it)"""
+
+
 class FakeSock:
     """in-memory server-side socket: the harness feeds inbound bytes and finally an ending"""
 
@@ -43,6 +48,7 @@ class FakeSock:
         self.timeout = None
         self.recv_calls = 0
         self.peername_fails = False
+        self.strict_timeout = False     # True: a silent peer times out only if a timeout was set on this socket
 
     # -- harness side
     def feed(self, data):
@@ -75,6 +81,8 @@ class FakeSock:
             if self.ending == "eof":
                 return b""
             if self.ending == "timeout":
+                if self.strict_timeout and not self.timeout:
+                    raise Blocked("connection %d: the peer is silent and no timeout is set on the accepted socket" % self.index)
                 raise socket.timeout("timed out")
             raise ConnectionResetError(errno.ECONNRESET, "reset by peer")
 
@@ -177,7 +185,7 @@ class Resource:
 
 
 class Rig:
-    def __init__(self, servertype, poolsize=8, session_class=True, linger=None):
+    def __init__(self, servertype, poolsize=8, session_class=True, linger=None, commtimeout=0.0):
         from Pyro5 import config, server, errors, callcontext
         self._saved_linger = config.ITER_STREAM_LINGER
         if linger is not None:
@@ -188,7 +196,8 @@ class Rig:
         config.SERVERTYPE = servertype
         config.THREADPOOL_SIZE = poolsize
         config.THREADPOOL_SIZE_MIN = min(poolsize, 2)
-        config.COMMTIMEOUT = 0.0
+        config.COMMTIMEOUT = commtimeout      # > 0: sockets are "strict" (see FakeSock.strict_timeout)
+        self.commtimeout = commtimeout
         self.tmp = tempfile.mkdtemp(prefix="srvkit")
         rig = self
         self.execs = []            # (conn index, token) in execution order
@@ -392,6 +401,7 @@ class Rig:
         """the peer of connection idx sends `data` and then (optionally) ends the connection"""
         while len(self.socks) <= idx:
             self.socks.append(FakeSock(len(self.socks)))
+            self.socks[-1].strict_timeout = bool(self.commtimeout)
         s = self.socks[idx]
         s.peername_fails = peername_fails
         first = idx not in self.started
@@ -402,6 +412,9 @@ class Rig:
             from Pyro5 import svr_threads
             if first:
                 self.started[idx] = True
+                from Pyro5 import config as _cfg
+                if _cfg.COMMTIMEOUT:
+                    s.settimeout(_cfg.COMMTIMEOUT)      # what the accept loop (which this rig stands in for) does
                 job = svr_threads.ClientConnectionJob(s, ("fake", idx), self.daemon)
                 done = threading.Event()
                 self.jobs[idx] = done
